@@ -1683,19 +1683,22 @@ Qed.
 Inductive mem : Type :=
 | MC (args : list (ty * string))
 | MM (t : ty) (name : string) (args : list (ty * string)) (cst : bool)
-| MP (t : ty) (name : string).
+| MP (t : ty) (name : string)
+| ME (name : string) (enumerators : list string).
 
 Definition mem_toks (cn : chars) (m : mem) : list chars :=
   match m with
   | MC args => ctor_toks cn args
   | MM t n args cst => method_toks t (chars_of n) args cst
   | MP t n => var_toks t n
+  | ME n l => enum_toks n l
   end.
 Definition mem_member (cn : string) (m : mem) : member :=
   match m with
   | MC args => ctor_member cn args
   | MM t n args cst => method_member t n args cst
   | MP t n => MVar {| v_ty := t; v_name := n; v_default := None |}
+  | ME n l => MEnum {| e_name := n; e_items := l |}
   end.
 Definition name_ok (h : chars) : Prop :=
   no_us h /\ h <> ktemplate /\ h <> kstatic /\ h <> kenum /\ h <> kpair.
@@ -1706,12 +1709,14 @@ Definition wf_mem (m : mem) : Prop :=
   | MC args => Forall wf_arg args
   | MM t n args _ => wf_ty t /\ depth t < depth_fuel /\ head_mem t /\ is_ident (chars_of n) = true /\ not_operator (chars_of n) /\ Forall wf_arg args
   | MP t n => wf_ty t /\ depth t < depth_fuel /\ head_mem t /\ is_ident (chars_of n) = true /\ not_operator (chars_of n)
+  | ME n l => wf_enum n l /\ not_operator (chars_of n)
   end.
 Definition mem_fuel (m : mem) : nat :=
   match m with
   | MC args => args_fuel args
   | MM t _ args _ => fuel_of t + args_fuel args
   | MP t _ => fuel_of t
+  | ME _ l => length l
   end.
 
 Lemma lit_operator_lparen : forall q X, run_term (TLit "operator") {| pk := q; rest := sp lparen X |} = Fail.
@@ -1733,6 +1738,23 @@ Proof.
   cbv iota. rewrite H. reflexivity.
 Qed.
 
+Lemma b_member_enum : forall name items,
+  b_member (enum_value name items) = Ok (MEnum {| e_name := string_of name; e_items := map string_of items |}).
+Proof.
+  intros name items. unfold enum_value. cbn [b_member].
+  repeat match goal with |- context [String.eqb ?a ?b] =>
+    let x := eval vm_compute in (String.eqb a b) in change (String.eqb a b) with x end.
+  cbv iota. unfold b_enum, name_of, first_named. rewrite !named_app, named_enumerators.
+  change (named "name" [([], VStr "enum"); (["name"%string], VStr (string_of name))]) with [VStr (string_of name)].
+  change (named "enumerators" [([], VStr "enum"); (["name"%string], VStr (string_of name))]) with (@nil value).
+  cbn [app hd_error bind].
+  assert (M : mapM (fun e => match e with
+                             | VNode _ eits => match strs eits with [x] => Ok x | _ => bad "enumerator" end
+                             | _ => bad "enumerator" end) (map enumerator_value items) = Ok (map string_of items)).
+  { induction items as [|x items IH]; [reflexivity|]. cbn [map mapM enumerator_value strs flat_map snd app bind]. rewrite IH. reflexivity. }
+  rewrite M. reflexivity.
+Qed.
+
 Lemma mem_step : forall cn m, is_ident cn = true -> name_ok cn -> ~ In cn reserved -> wf_mem m ->
   forall p R f, mem_fuel m + 40 <= f ->
   exists v p', interp g f MOR6 {| pk := p; rest := render (mem_toks cn m) R |} = Match [([], v)] {| pk := p'; rest := R |}
@@ -1741,7 +1763,7 @@ Proof.
   intros cn m Hcn [Hus [Hct [Hcs [Hce Hcp]]]] Hcr Hwm p R f Hf.
   assert (X : exists y, f = Sn 6 (20 + y) /\ mem_fuel m + 14 <= y) by (exists (f - 26); cbn [Sn]; lia).
   destruct X as [y [Ef Hy]]. subst f. cbn [Sn].
-  destruct m as [args | t n args cst | t n]; cbn [mem_toks mem_member wf_mem mem_fuel] in *.
+  destruct m as [args | t n args cst | t n | n items]; cbn [mem_toks mem_member wf_mem mem_fuel] in *.
   - (* constructor *)
     destruct (ctor_ok cn args Hcn Hct Hwm p R (6 + y) ltac:(lia)) as [v [p' [E Bm]]].
     exists v, p'. split; [|exact Bm].
@@ -1827,6 +1849,43 @@ Proof.
       rewrite ER. assert (Eh2 : h2 = h) by (rewrite Eh in E2; cbn [app] in E2; inversion E2; reflexivity). subst h2.
       apply (ctor_fails_second p h c2 t2 _ (6 + y) Hh2 Hht Cs2 Cl2).
     + rewrite EH2. apply (dunder_fails_w p h _ Hwh (11 + y) Hhu).
+  - (* nested enumeration *)
+    destruct Hwm as [[Hn [H1 [H2 [Hne Hi]]]] Hno]. destruct items as [|x items]; [contradiction|].
+    inversion Hi as [|? ? Hx Hrest]; subst.
+    assert (Hrest' : Forall (fun y => is_ident y = true) (map chars_of items)).
+    { apply Forall_forall. intros z Hz. apply in_map_iff in Hz. destruct Hz as [w [E Hw]]. subst z. rewrite Forall_forall in Hrest. apply Hrest. exact Hw. }
+    cbn [length] in Hy. set (k := length items) in *.
+    unfold enum_toks.
+    replace (map (fun y : string => [chars_of y]) (x :: items)) with (map (fun y => [y]) (chars_of x :: map chars_of items))
+      by (cbn [map]; rewrite map_map; reflexivity).
+    destruct (enum_ok (chars_of n) (chars_of x) (map chars_of items) (12 + y - k) p R Hn H1 H2 Hx Hrest') as [p' E].
+    rewrite map_length in E. fold k in E.
+    exists (enum_value (chars_of n) (chars_of x :: map chars_of items)), p'. split.
+    2:{ rewrite b_member_enum, string_chars. cbn [map]. rewrite string_chars, map_string_chars. reflexivity. }
+    set (TXT := render ([kenum; chars_of n; lbrace] ++ sep_toks (map (fun y => [y]) (chars_of x :: map chars_of items)) ++ [rbrace; semi]) R) in *.
+    set (AFTER := render ([lbrace] ++ sep_toks (map (fun y => [y]) (chars_of x :: map chars_of items)) ++ [rbrace; semi]) R).
+    assert (ET : TXT = sp kenum (sp (chars_of n) AFTER)) by reflexivity.
+    assert (EA : AFTER = sp ("{"%char :: []) (render (sep_toks (map (fun y => [y]) (chars_of x :: map chars_of items)) ++ [rbrace; semi]) R)) by reflexivity.
+    assert (We : word kenum) by (split; [discriminate | reflexivity]).
+    assert (Bd : boundary (sp (chars_of n) AFTER)) by (right; eexists; reflexivity).
+    assert (WH : wf_head_toks [kenum]) by (exists kenum, []; split; [reflexivity|]; split; [exact We|]; split; discriminate).
+    assert (HW : head_word [kenum]) by (exists kenum, []; split; [reflexivity|]; split; [exact We | discriminate]).
+    rewrite ET in *.
+    assert (EQ : 13 + k + (12 + y - k) = S (S (S (S (S (20 + y)))))) by lia. rewrite EQ in E.
+    unfold MOR6. rewrite or2_r; [exact E|].
+    unfold MOR5. rewrite or2_r.
+    { apply (oper_fails_lit 13 [kenum] _ (sp (chars_of n) AFTER) enum_parses HW (follow_ident _ _ Hn)).
+      - intros q. apply lit_operator_name; [exact Hn | right; eexists; reflexivity | exact Hno].
+      - lia. }
+    unfold MOR4. rewrite or2_r.
+    { rewrite EA. apply (variable_fails 13 [kenum] (ty_value (kw_type "enum")) (chars_of n) "{"%char [] _ enum_parses Hn eq_refl eq_refl eq_refl (15 + y) p). lia. }
+    unfold MOR3. rewrite or2_r; [apply (static_fails_w p kenum _ We Bd (5 + y)); discriminate|].
+    unfold MOR2. rewrite or2_r.
+    { rewrite EA. apply (method_fails_nolparen 13 [kenum] _ (chars_of n) "{"%char [] _ enum_parses WH Hn eq_refl eq_refl (1 + y) p). lia. }
+    unfold MOR1. rewrite or2_r.
+    + destruct (ident_first_alpha (chars_of n) Hn) as [c [w [En Hc]]]. destruct (alpha_plain c Hc) as [Cs [Cl _]]. rewrite En.
+      apply (ctor_fails_second p kenum c w AFTER (6 + y) eq_refl ltac:(discriminate) Cs Cl).
+    + apply (dunder_fails_w p kenum _ We (11 + y)). reflexivity.
 Qed.
 
 (* ---- the members of a class, one after the other, up to the closing brace ---- *)
@@ -1859,7 +1918,7 @@ Lemma ctor_names : forall name ms,
   forallb (fun c => String.eqb (k_name c) name) (flat_map (fun m => match m with MCtor c => [c] | _ => [] end) (map (mem_member name) ms)) = true.
 Proof.
   intros name ms. induction ms as [|m ms IH]; [reflexivity|]. cbn [map flat_map]. rewrite forallb_app, IH, andb_true_r.
-  destruct m as [args | t n args cst | t n]; cbn [mem_member]; unfold ctor_member, method_member; cbn [forallb k_name]; [|reflexivity|reflexivity].
+  destruct m as [args | t n args cst | t n | n l]; cbn [mem_member]; unfold ctor_member, method_member; cbn [forallb k_name]; [|reflexivity|reflexivity|reflexivity].
   rewrite String.eqb_refl. reflexivity.
 Qed.
 
@@ -2237,7 +2296,7 @@ Qed.
 Lemma mem_facts : forall cn m, is_ident cn = true -> wf_mem m ->
   Forall tok_ok (mem_toks cn m) /\ mem_fuel m + 1 <= 32 * length (mem_toks cn m).
 Proof.
-  intros cn m Hcn Hw. destruct m as [args | t n args cst | t n]; cbn [mem_toks mem_fuel wf_mem] in *.
+  intros cn m Hcn Hw. destruct m as [args | t n args cst | t n | en el]; cbn [mem_toks mem_fuel wf_mem] in *.
   - destruct (args_facts args Hw) as [A1 A2]. unfold ctor_toks. split.
     + cbn [app]. constructor; [apply ident_tok; exact Hcn|]. constructor; [tok_lit|]. apply Forall_app. split; [exact A1 | tok_lit].
     + cbn [app length]. rewrite app_length. cbn [length]. lia.
@@ -2249,6 +2308,15 @@ Proof.
   - destruct Hw as [Hw [Hd [_ [Hn _]]]]. destruct (ty_facts _ _ Hd Hw) as [T1 T2]. unfold var_toks. split.
     + apply Forall_app. split; [exact T1|]. constructor; [apply ident_tok; exact Hn | tok_lit].
     + rewrite app_length. cbn [length]. lia.
+  - destruct Hw as [[Hn [_ [_ [Hne Hi]]]] _]. destruct el as [|x el]; [contradiction|].
+    inversion Hi as [|? ? Hx Hrest]; subst. unfold enum_toks. cbn [map]. rewrite sep_toks_cons. split.
+    + constructor; [tok_lit|]. constructor; [apply ident_tok; exact Hn|]. constructor; [tok_lit|].
+      apply Forall_app. split; [|tok_lit]. apply Forall_app. split; [constructor; [apply ident_tok; exact Hx | constructor]|].
+      apply more_tok. apply Forall_forall. intros l Hl. apply in_map_iff in Hl. destruct Hl as [y [E Hy]]. subst l.
+      constructor; [|constructor]. apply ident_tok. rewrite Forall_forall in Hrest. apply Hrest. exact Hy.
+    + assert (L : length (more_toks (map (fun y : string => [chars_of y]) el)) = 2 * length el).
+      { clear. induction el as [|y el IH]; [reflexivity|]. cbn [map]. rewrite more_toks_cons. cbn [length app]. rewrite IH. lia. }
+      cbn [length app]. rewrite !app_length. cbn [length]. rewrite L. lia.
 Qed.
 Lemma mems_facts : forall cn ms, is_ident cn = true -> Forall wf_mem ms ->
   Forall tok_ok (flat_map (mem_toks cn) ms) /\ length ms + mems_fuel ms <= 32 * length (flat_map (mem_toks cn) ms).
